@@ -865,7 +865,7 @@ def r03_18(chk):
 
 def r03_19(chk):
     chk.rule("R03.19", "only gaps at the ends are termini: in IndelMap.spans a gap record is shown as TerminalPadding ('?') only under a test of WHERE the gap is (its position equals 0 or parent_length) -- not because it is the last record: with termini_unknown the last record of 'AC--GTAA' is an internal gap, and showing it as '?' alters internal characters (Alignment.with_modified_termini() gave AC??GTAA, the array class AC--GTAA)")
-    from .c09 import _enclosing_tests
+    from .c09 import _enclosing_tests, _inline_flags
 
     m = chk.repo.module("core/location.py")
     q = "IndelMap.spans"
@@ -874,12 +874,12 @@ def r03_19(chk):
     if not picks:
         raise AnalysisError(f"{q}: TerminalPadding selection not found")
     n = 0
-    for e in picks:
+    for which, e in zip(("first", "second", "third", "fourth"), picks):
         n += 1
         stmt = next(st for st in walk_no_nested(fn) if isinstance(st, ast.stmt) and any(x is e for x in ast.walk(st)) and not isinstance(st, (ast.For, ast.If, ast.While, ast.FunctionDef)))
-        conds = [norm(e.test)] + [t for t in _enclosing_tests(fn, stmt) if not t.startswith("not (")]
+        conds = [norm(_inline_flags(fn, e.test))] + [t for t in _enclosing_tests(fn, stmt) if not t.startswith("not (")]
         positional = any(("parent_length" in c_) or ("== 0" in c_ and "pos" in c_) for c_ in conds)
-        chk.decide(positional, "R03.19", key(m, q, f"TerminalPadding chosen by position ({norm(e.test)[:40]})"), m.loc(e), f"conditions {conds}", f"TerminalPadding is chosen under {conds}: none of them says where the gap lies, so the last gap record is shown as '?' even when it is internal")
+        chk.decide(positional, "R03.19", key(m, q, f"TerminalPadding chosen by position ({which} selection)"), m.loc(e), f"conditions {conds}", f"TerminalPadding is chosen under {conds}: none of them says where the gap lies, so the last gap record is shown as '?' even when it is internal")
     chk.floor("R03.19", 2, "leading and trailing terminus")
 
 
